@@ -2,6 +2,12 @@
 from facts import Sym, path_is, strip_generics, strip_sym, sym_arg, sym_calls, sym_is_call, sym_str, sym_through, sym_walk
 from props.common import arg_syms, atomic_ops, bool_switches, calls_to, crate_stats, gates, in_cycle, need, nonforeign_calls, one_method, orderings_in, recorder_forward
 
+KEEP = [  # private helpers the rules name (kept as functions); every other non-exported, non-trait function is spliced into its callers
+    "Block::data", "Block::is_quiesced", "Block::len", "Block::new",
+    "Block::next_len", "Block::push", "Block::seal", "CompositeKeyName::new",
+    "Generational::new", "Inner::new", "MetricKindMask::value", "RecoverableRecorder::build",
+    "Reservoir::push",
+]
 TITLE = "C05 the lock-free bucket never loses, duplicates or invents a sample."
 CONFIGS = ["test-profile", "util-storage"]
 BLK = "metrics_util::storage::bucket::Block"
@@ -54,12 +60,21 @@ def run(ctx):
     dataf = one_method(chk, "C05.a", u, BLK, "data")
     isq = one_method(chk, "C05.b", u, BLK, "is_quiesced")
 
+    # the block's two counters by role, not by name: `claim` = the one push advances by fetch_add, `done` = the bitmap
+    # push publishes into by fetch_or (declared names are the fallback when push does not have that shape)
+    W_F, R_F = "write", "read"
+    if push:
+        adds_ = [o for o in atomic_ops(push) if o[1] == "fetch_add" and strip_sym(o[2])[0] == "field"]
+        ors_ = [o for o in atomic_ops(push) if o[1] == "fetch_or" and strip_sym(o[2])[0] == "field"]
+        if len(adds_) == 1 and len(ors_) == 1 and strip_sym(adds_[0][2])[2] != strip_sym(ors_[0][2])[2]:
+            W_F, R_F = strip_sym(adds_[0][2])[2], strip_sym(ors_[0][2])[2]
+
     # ---------------- C05.a
     if push:
         b = push.body
         ops = atomic_ops(push)
-        claim = [o for o in ops if self_field(o[2], "write")]
-        publish = [o for o in ops if self_field(o[2], "read")]
+        claim = [o for o in ops if self_field(o[2], W_F)]
+        publish = [o for o in ops if self_field(o[2], R_F)]
         ok = len(claim) == 1 and claim[0][1] == "fetch_add" and const_int(claim[0][3][1]) == 1 and len(publish) == 1 and publish[0][1] == "fetch_or" and len(ops) == 2
         chk.ob("C05.a", f"{push.path} [claim/publish shape]", ok, "one write.fetch_add(1) claim, one read.fetch_or publish" if ok else f"atomic ops in Block::push: {[(o[1], sym_str(o[2])[-12:]) for o in ops]} — a slot must be claimed by a single fetch_add and published by a single fetch_or", push.loc())
         if ok:
@@ -96,7 +111,7 @@ def run(ctx):
         r = strip_sym(Sym(lenf).local(0))
         while r[0] == "cast":
             r = strip_sym(r[1])
-        ok = sym_is_call(r, "trailing_ones") and sym_is_call(r[2][0], "load") and self_field(strip_sym(r[2][0])[2][0], "read")
+        ok = sym_is_call(r, "trailing_ones") and sym_is_call(r[2][0], "load") and self_field(strip_sym(r[2][0])[2][0], R_F)
         lo = orderings_in(arg_syms(list(lenf.body.calls())[0])) if ok else []
         ok = ok and len(lo) == 1 and lo[0] in ("Acquire", "SeqCst")
         chk.ob("C05.a", lenf.path, ok, f"len() = read.load({lo[0] if lo else '?'}).trailing_ones()" if ok else f"len() is {sym_str(r)[:100]} with ordering {lo}: must count completed slots from `read` with >= Acquire", lenf.loc())
@@ -106,7 +121,7 @@ def run(ctx):
         if ok:
             ln = strip_sym(arg_syms(frp[0])[1])
             ok = sym_is_call(ln, "Block<T>::len") and is_param(ln[2][0], 0)
-        touches_write = any(self_field(o[2], "write") for o in atomic_ops(dataf))
+        touches_write = any(self_field(o[2], W_F) for o in atomic_ops(dataf))
         chk.ob("C05.a", dataf.path, ok and not touches_write, "data() = from_raw_parts(slots, self.len())" if ok and not touches_write else "data()'s length does not come from len() only (reading `write` exposes claimed-but-unwritten slots)", dataf.loc())
     dropf = (u.method(BLK, "drop", "Drop") or [None])[0]
     if dropf:
@@ -117,6 +132,14 @@ def run(ctx):
                 rng = strip_sym(sy.operand(c.args[0]))
         dp = [c for c in dropf.body.calls() if c.is_("drop_in_place")]
         ok = rng is not None and rng[0] == "agg" and const_int(rng[3][0]) == 0 and sym_is_call(rng[3][1], "Block<T>::len") and len(dp) == 1 and in_cycle(dropf.body, dp[0].bb)
+        if not ok and len(dp) == 1:
+            # slots.iter().take(len): the first len() slots, in order
+            from props.common import iteration_context
+
+            src, _w = iteration_context(dp[0])
+            src = strip_sym(src) if src is not None else None
+            if src is not None and sym_is_call(src, "Iterator::take") and "'slots'" in repr(src[2][0]) and sym_is_call(src[2][1], "Block<T>::len") and not any(x in sym_str(src[2][0]) for x in ("skip(", "rev(", "step_by(")):
+                ok = True
         chk.ob("C05.a", dropf.path, ok, "Drop drops exactly slots 0..len()" if ok else "Drop for Block does not drop exactly the completed slots 0..len()", dropf.loc())
     else:
         chk.unrecognised("C05.a", "<anchor> Drop for Block", "missing")
@@ -136,9 +159,9 @@ def run(ctx):
                         m0, m1 = strip_sym(a[2][0]), strip_sym(a[2][1])
                         wl = m0 if sym_is_call(m0, "load") else m1
                         cst = m1 if wl is m0 else m0
-                        if sym_is_call(wl, "load") and self_field(wl[2][0], "write") and (const_int(cst) == BS):
+                        if sym_is_call(wl, "load") and self_field(wl[2][0], W_F) and (const_int(cst) == BS):
                             found = True
-        wl = [o for o in atomic_ops(isq) if o[1] == "load" and self_field(o[2], "write")]
+        wl = [o for o in atomic_ops(isq) if o[1] == "load" and self_field(o[2], W_F)]
         load_ok = len(wl) >= 1 and all(x in ("Acquire", "SeqCst") for o in wl for x in orderings_in(o[3]))
         chk.ob("C05.b", isq.path, found and load_ok, "is_quiesced compares min(write.load(Acquire), BLOCK_SIZE) with len()" if found and load_ok else "is_quiesced does not compare the (clamped) number of claimed slots with the number of completed slots using >= Acquire loads", isq.loc())
     for fname in ("data_with", "clear_with"):
@@ -253,10 +276,10 @@ def run(ctx):
                     continue
                 callee = u.fn(c.resolved) if c.resolved else None
                 if callee is not None:
-                    inner = [o for o in atomic_ops(callee) if self_field(o[2], "write") and o[1] in ("fetch_or", "fetch_add", "swap", "fetch_max")]
+                    inner = [o for o in atomic_ops(callee) if self_field(o[2], W_F) and o[1] in ("fetch_or", "fetch_add", "swap", "fetch_max")]
                     if inner and (const_int(inner[0][3][1]) or 0) >= (BS or 64):
                         fence = (c, inner[0][1], const_int(inner[0][3][1]))
-                elif strip_generics(c.resolved or "").split("::")[-1] in ("fetch_or", "fetch_add", "swap", "fetch_max") and strip_sym(a[0])[0] == "field" and strip_sym(a[0])[2] == "write":
+                elif strip_generics(c.resolved or "").split("::")[-1] in ("fetch_or", "fetch_add", "swap", "fetch_max") and strip_sym(a[0])[0] == "field" and strip_sym(a[0])[2] == W_F:
                     if (const_int(a[1]) or 0) >= (BS or 64):
                         fence = (c, strip_generics(c.resolved).split("::")[-1], const_int(a[1]))
             chk.ob("C05.d", f"{cw.path} [claims fenced before read #{n}]", fence is not None, f"the block is sealed ({fence[1]} of {fence[2]:#x} on `write`) before it is read: later claims fall out of range and retry on the live tail" if fence else "nothing stops a writer holding a stale tail pointer from claiming a slot in a block the clearer has already read: that value is never delivered to any clear", dc.loc())
